@@ -161,8 +161,11 @@ def sameContext (vr : Variant) (mode : Mode) (st : Stk) : Bool :=
   vr.equalIdsIgnoreContext || (match mode with | .any => true | .all => false) || decide (st.l = st.r)
 
 /-- the key under which the pair `(a, b)` is assumed and looked up at the stacks `st` -/
-abbrev akey (vr : Variant) (st : Stk) (a b : Nat) : AKey :=
+def akey (vr : Variant) (st : Stk) (a b : Nat) : AKey :=
   (a, b, if vr.asmCarriesStacks then st else {})
+
+@[simp] theorem akey_fst (vr : Variant) (st : Stk) (a b : Nat) : (akey vr st a b).1 = a := rfl
+@[simp] theorem akey_snd (vr : Variant) (st : Stk) (a b : Nat) : (akey vr st a b).2.1 = b := rfl
 
 /-- Restore the snapshot when a union check fails (fix e428d71). -/
 def restoreOnFail (vr : Variant) (snapshot : Asm) : Res → Res
